@@ -1,4 +1,457 @@
-//! c08 check (under construction)
+//! C08 - SNAP ingress filter: no spoofed source and no unsupported path type enters SCION.
+//!
+//! Bounded exhaustive enumeration of datagrams generated from the size- and decision-determining
+//! fields with the independent writer `vpc::refwire` (never with sciparse):
+//!   source type/length nibble (all 16) x destination nibble x path variant (types 0,1,2,3,4,5,255, with
+//!   right and wrong sizes) x tunnel peer address x source host byte pattern (equal to the peer,
+//!   differing in each single byte, v4-mapped / v4-compatible / NAT64 / zero-padded / truncated forms;
+//!   the type/length aliasing cases arise because every pattern is sent under every nibble of its
+//!   length) x header deviation (truthful HdrLen, -1, +1, 0, 255, version 1) x payload (size and
+//!   PayloadLen field) x truncation at every structural boundary and +-1.
+//! Oracle: an independent decision procedure on `refwire::RHeader::parse`. Real side: the gateway's
+//! `inbound_datagram_check` and, on rejection, its private `create_scmp_error` into a buffer from a
+//! pool of the gateway's size (hook `snap_dataplane::tunnel_gateway::verif::ingress`).
+
+use std::{
+    collections::{BTreeMap, BTreeSet},
+    net::{IpAddr, Ipv4Addr, Ipv6Addr},
+    sync::atomic::{AtomicU64, Ordering},
+};
+
+use rayon::prelude::*;
+use sciparse::address::host_addr::ScionHostAddr;
+use serde_json::{Value, json};
+use snap_dataplane::tunnel_gateway::verif::{IngressVerdict, PACKET_BUF_SIZE, ingress};
+use vpc::refwire::{self, RHeader, RPath};
+
+const SCMP_MAX: usize = 1232;
+const JUMBO: usize = 9216;
+
+fn peers() -> Vec<(&'static str, IpAddr)> {
+    let a = Ipv4Addr::new(10, 1, 2, 3);
+    vec![
+        ("v4-A", IpAddr::V4(a)),
+        ("v4-B", IpAddr::V4(Ipv4Addr::new(192, 0, 2, 77))),
+        ("v6-A", IpAddr::V6("2001:db8:11:22:33:44:55:66".parse().unwrap())),
+        ("v4-mapped-A", IpAddr::V6(a.to_ipv6_mapped())),
+        ("v6-unspecified", IpAddr::V6(Ipv6Addr::UNSPECIFIED)),
+        ("v4-unspecified", IpAddr::V4(Ipv4Addr::UNSPECIFIED)),
+    ]
+}
+
+fn ip_bytes(ip: &IpAddr) -> Vec<u8> {
+    match ip {
+        IpAddr::V4(a) => a.octets().to_vec(),
+        IpAddr::V6(a) => a.octets().to_vec(),
+    }
+}
+
+/// Source host byte patterns of length `l` for a peer (name, bytes); duplicates by bytes removed.
+fn src_patterns(peer: &IpAddr, l: usize) -> Vec<(String, Vec<u8>)> {
+    let nat = ip_bytes(peer);
+    let mut v: Vec<(String, Vec<u8>)> = vec![];
+    if nat.len() == l {
+        v.push(("equal-to-peer".into(), nat.clone()));
+        for i in 0..l {
+            let mut b = nat.clone();
+            b[i] ^= 0x01;
+            v.push((format!("differs-in-byte-{i}"), b));
+        }
+    } else if nat.len() < l {
+        let mut a = nat.clone();
+        a.resize(l, 0);
+        v.push(("peer-then-zeros".into(), a));
+        let mut b = vec![0u8; l - nat.len()];
+        b.extend_from_slice(&nat);
+        v.push(("zeros-then-peer".into(), b)); // for l = 16 this is the v4-compatible form ::a.b.c.d
+        if l == 16 {
+            let v4 = Ipv4Addr::new(nat[0], nat[1], nat[2], nat[3]);
+            v.push(("v4-mapped-form-of-peer".into(), v4.to_ipv6_mapped().octets().to_vec()));
+            let mut n = vec![0x00, 0x64, 0xff, 0x9b, 0, 0, 0, 0, 0, 0, 0, 0];
+            n.extend_from_slice(&nat);
+            v.push(("nat64-form-of-peer".into(), n));
+        }
+    } else {
+        v.push((format!("first-{l}-bytes-of-peer"), nat[..l].to_vec()));
+        v.push((format!("last-{l}-bytes-of-peer"), nat[nat.len() - l..].to_vec())); // embedded v4 of a v4-mapped peer when l = 4
+    }
+    v.push(("zeros".into(), vec![0u8; l]));
+    v.push(("ones".into(), vec![0xffu8; l]));
+    let mut seen = BTreeSet::new();
+    v.retain(|(_, b)| seen.insert(b.clone()));
+    v
+}
+
+/// Path variants: (name, path type byte, path bytes).
+fn path_variants() -> Vec<(&'static str, u8, Vec<u8>)> {
+    let info = |seg: u16| refwire::RInfo { flags: 1, rsv: 0, seg_id: seg, timestamp: 0x6000_0000 }.to_bytes().to_vec();
+    let hop = |i: u16, e: u16| refwire::RHop { flags: 0, exp_time: 63, cons_ingress: i, cons_egress: e, mac: [1, 2, 3, 4, 5, 6] }.to_bytes().to_vec();
+    let std = |segs: [u8; 3], hops_present: usize| {
+        let p = refwire::RStdPath { curr_inf: 0, curr_hf: 0, rsv: 0, seg_len: segs, infos: vec![], hops: vec![] };
+        let mut b = p.to_bytes(); // meta only
+        for s in 0..segs.iter().filter(|x| **x > 0).count() {
+            b.extend(info(s as u16 + 1));
+        }
+        for h in 0..hops_present {
+            b.extend(hop(h as u16, h as u16 + 1));
+        }
+        b
+    };
+    let mut onehop = info(7);
+    onehop.extend(hop(0, 1));
+    onehop.extend(hop(0, 0));
+    let mut onehop_long = onehop.clone();
+    onehop_long.extend([0u8; 4]);
+    vec![
+        ("empty", 0, vec![]),
+        ("empty-with-4-bytes", 0, vec![0u8; 4]),
+        ("standard-1seg-2hops", 1, std([2, 0, 0], 2)),
+        ("standard-3seg-6hops", 1, std([2, 2, 2], 6)),
+        ("standard-meta-says-3-hops-2-present", 1, std([3, 0, 0], 2)),
+        ("standard-meta-only", 1, std([2, 0, 0], 0)[..4].to_vec()),
+        ("onehop", 2, onehop.clone()),
+        ("onehop-36-bytes", 2, onehop_long),
+        ("onehop-28-bytes", 2, onehop[..28].to_vec()),
+        ("type3-empty", 3, vec![]),
+        ("type3-16-bytes", 3, vec![0xA5; 16]),
+        ("type4-empty", 4, vec![]),
+        ("type4-as-standard", 4, std([2, 0, 0], 2)),
+        ("type5-empty", 5, vec![]),
+        ("type5-16-bytes", 5, vec![0x5A; 16]),
+        ("type255-empty", 255, vec![]),
+        ("type255-as-standard", 255, std([2, 0, 0], 2)),
+    ]
+}
+
+#[derive(Clone, Copy, Debug, PartialEq)]
+enum HdrMode {
+    Truthful,
+    HdrLenMinus1,
+    HdrLenPlus1,
+    HdrLenZero,
+    HdrLen255,
+    Version1,
+}
+const HDR_MODES: [HdrMode; 6] = [HdrMode::Truthful, HdrMode::HdrLenMinus1, HdrMode::HdrLenPlus1, HdrMode::HdrLenZero, HdrMode::HdrLen255, HdrMode::Version1];
+
+/// (name, payload bytes present; usize::MAX = fill the jumbo buffer, PayloadLen field: None = truthful)
+fn payload_variants(quick: bool) -> Vec<(&'static str, usize, Option<u16>)> {
+    let mut v = vec![("0", 0usize, None), ("8", 8, None), ("8-field+1", 8, Some(9)), ("1232", 1232, None)];
+    if !quick {
+        v.extend([("8-field-0", 8, Some(0)), ("1200", 1200, None), ("1232-field-ffff", 1232, Some(0xffff)), ("jumbo-9216-total", usize::MAX, None)]);
+    }
+    v
+}
+
+struct Shape<'a> {
+    dst_tl: u8,
+    src_tl: u8,
+    path: &'a (&'static str, u8, Vec<u8>),
+    src_host: &'a [u8],
+    mode: HdrMode,
+    payload: &'a (&'static str, usize, Option<u16>),
+}
+
+/// Writes the untruncated datagram into `out`; returns the structural boundaries.
+fn build(s: &Shape, out: &mut Vec<u8>) -> Vec<usize> {
+    let dl = refwire::host_len(s.dst_tl);
+    let dst_host: Vec<u8> = (0..dl).map(|i| 0xC0 + i as u8).collect();
+    let mut h = RHeader {
+        version: if s.mode == HdrMode::Version1 { 1 } else { 0 },
+        traffic_class: 0,
+        flow_id: 0x12345,
+        next_hdr: refwire::PROTO_UDP,
+        hdr_len: 0,
+        payload_len: 0,
+        path_type: s.path.1,
+        dst_tl: s.dst_tl,
+        src_tl: s.src_tl,
+        rsv: 0,
+        dst_ia: refwire::ia(1, 0xff00_0000_0110),
+        src_ia: refwire::ia(1, 0xff00_0000_0111),
+        dst_host,
+        src_host: s.src_host.to_vec(),
+        path: RPath::Other(s.path.1, s.path.2.clone()),
+    };
+    let natural = h.natural_len();
+    let words = (natural / 4) as i64;
+    h.hdr_len = match s.mode {
+        HdrMode::Truthful | HdrMode::Version1 => words,
+        HdrMode::HdrLenMinus1 => words - 1,
+        HdrMode::HdrLenPlus1 => words + 1,
+        HdrMode::HdrLenZero => 0,
+        HdrMode::HdrLen255 => 255,
+    } as u8;
+    let plen = if s.payload.1 == usize::MAX { JUMBO - natural } else { s.payload.1 };
+    h.payload_len = s.payload.2.unwrap_or(plen as u16);
+    out.clear();
+    out.extend_from_slice(&h.to_bytes_raw());
+    debug_assert_eq!(out.len(), natural);
+    out.extend((0..plen).map(|i| (i as u8).wrapping_mul(7).wrapping_add(1)));
+    let mut b = vec![12, 28, 28 + dl, 28 + dl + s.src_host.len()];
+    if s.path.2.len() >= 4 {
+        b.push(28 + dl + s.src_host.len() + 4);
+    }
+    b.push(natural);
+    b.push(natural + plen);
+    b
+}
+
+fn truncations(boundaries: &[usize], total: usize, quick: bool) -> Vec<usize> {
+    let mut t = BTreeSet::new();
+    t.insert(total);
+    t.insert(0);
+    for b in boundaries {
+        for d in [-1i64, 0, 1] {
+            if quick && d != 0 && *b != boundaries[boundaries.len() - 2] {
+                // quick: +-1 only around the end of the header, exact cut elsewhere
+                continue;
+            }
+            let n = *b as i64 + d;
+            if n >= 0 && (n as usize) <= total {
+                t.insert(n as usize);
+            }
+        }
+    }
+    t.into_iter().collect()
+}
+
+// ---------------------------------------------------------------------------------------------
+// independent decision procedure
+// ---------------------------------------------------------------------------------------------
+#[derive(Debug, Clone, PartialEq)]
+enum Expect {
+    Dispatch,
+    Reject(&'static str),
+}
+
+fn oracle(datagram: &[u8], peer: &IpAddr) -> Expect {
+    let (h, _hl) = match RHeader::parse(datagram) {
+        Ok(x) => x,
+        Err(e) => {
+            return Expect::Reject(match e {
+                "short-common" => "malformed:shorter-than-common-header",
+                "hdrlen-too-small" => "malformed:hdrlen-below-address-header",
+                "short-header" => "malformed:shorter-than-hdrlen",
+                "empty-path-with-bytes" => "malformed:empty-path-with-bytes",
+                "onehop-length" => "malformed:onehop-length",
+                "short-meta" => "malformed:standard-path-short",
+                "length-mismatch" => "malformed:standard-path-length",
+                "seglen-after-zero" => "malformed:standard-path-seglen",
+                _ => "malformed:other",
+            });
+        }
+    };
+    if h.version != 0 {
+        // SCION has a single version (0); a parser refusing other versions is within the format rules
+        return Expect::Reject("malformed:version-not-0");
+    }
+    let same = match (h.src_tl, peer) {
+        (0b0000, IpAddr::V4(a)) => h.src_host.len() == 4 && h.src_host[..] == a.octets(),
+        (0b0011, IpAddr::V6(a)) => h.src_host.len() == 16 && h.src_host[..] == a.octets(),
+        (0b0000, _) | (0b0011, _) => return Expect::Reject("source-ip-of-other-family"),
+        _ => return Expect::Reject("source-not-an-ip-type"),
+    };
+    if !same {
+        return Expect::Reject("source-ip-differs-from-peer");
+    }
+    match h.path_type {
+        0 | 1 => Expect::Dispatch,
+        2 => Expect::Reject("path-type-onehop"),
+        _ => Expect::Reject("path-type-unknown"),
+    }
+}
+
+/// Checks the real verdict against the expectation; returns (outcome label, problems).
+fn judge(datagram: &[u8], peer: &IpAddr, local: ScionHostAddr) -> (String, Expect, Vec<(String, String)>) {
+    let exp = oracle(datagram, peer);
+    let mut problems = vec![];
+    let real = vpc::catch(|| ingress(datagram, *peer, local));
+    let label = match real {
+        Err(p) => {
+            problems.push((format!("panic@{}", vpc::last_panic_location()), format!("gateway ingress panicked: {p}")));
+            "panic".to_string()
+        }
+        Ok(IngressVerdict::Dispatch) => {
+            if let Expect::Reject(why) = &exp {
+                let class = match *why {
+                    "source-ip-differs-from-peer" | "source-ip-of-other-family" => "spoofed-source-dispatched",
+                    "source-not-an-ip-type" => "non-ip-source-dispatched",
+                    "path-type-onehop" => "onehop-path-dispatched",
+                    "path-type-unknown" => "unknown-path-type-dispatched",
+                    _ => "malformed-datagram-dispatched",
+                };
+                problems.push((class.to_string(), format!("dispatched although the reference decides reject ({why})")));
+            }
+            "dispatch".to_string()
+        }
+        Ok(IngressVerdict::ReplyEncodeError(e)) => {
+            if exp == Expect::Dispatch {
+                problems.push(("conforming-packet-not-dispatched".into(), format!("rejected (and the SCMP reply failed to encode: {e})")));
+            }
+            "reject+encode-error".to_string()
+        }
+        Ok(IngressVerdict::ScmpReply(reply)) => {
+            if exp == Expect::Dispatch {
+                problems.push(("conforming-packet-not-dispatched".into(), "answered with SCMP although source = peer, path type standard/empty and the header parses".into()));
+            }
+            let mut code = None;
+            if reply.len() > PACKET_BUF_SIZE {
+                problems.push(("scmp-reply-exceeds-send-buffer".into(), format!("{} bytes > {PACKET_BUF_SIZE}", reply.len())));
+            }
+            if reply.len() > SCMP_MAX {
+                problems.push(("scmp-reply-exceeds-1232".into(), format!("{} bytes", reply.len())));
+            }
+            match RHeader::parse(&reply) {
+                Err(e) => problems.push(("scmp-reply-unparseable".into(), format!("reference parser: {e}"))),
+                Ok((h, hl)) => {
+                    let l4 = &reply[hl..];
+                    if h.version != 0 || h.next_hdr != refwire::PROTO_SCMP || l4.len() < 8 {
+                        problems.push(("scmp-reply-not-scmp".into(), format!("version {} next header {} l4 length {}", h.version, h.next_hdr, l4.len())));
+                    } else {
+                        if h.payload_len as usize != l4.len() {
+                            problems.push(("scmp-reply-payload-len-wrong".into(), format!("PayloadLen {} but {} bytes follow the header", h.payload_len, l4.len())));
+                        }
+                        if l4[0] != 4 {
+                            problems.push(("scmp-reply-not-parameter-problem".into(), format!("SCMP type {}", l4[0])));
+                        }
+                        code = Some(l4[1]);
+                        let quote = &l4[8..];
+                        if quote.len() > datagram.len() || quote != &datagram[..quote.len()] {
+                            problems.push(("scmp-quote-not-a-prefix".into(), format!("{} quoted bytes are not a prefix of the {}-byte datagram", quote.len(), datagram.len())));
+                        }
+                    }
+                }
+            }
+            match code {
+                Some(c) => format!("scmp-parameter-problem(code {c})"),
+                None => "scmp-broken".to_string(),
+            }
+        }
+    };
+    (label, exp, problems)
+}
+
+fn local_addr(v6: bool) -> ScionHostAddr {
+    if v6 { ScionHostAddr::V6("fd00::5a".parse().unwrap()) } else { ScionHostAddr::V4(Ipv4Addr::new(10, 9, 8, 7)) }
+}
+
+fn replay(file: &std::path::Path) -> ! {
+    let r = vpc::read_replay(file);
+    let w = &r["witness"];
+    let datagram = vpc::unhex(w["datagram_hex"].as_str().unwrap_or(""));
+    let peer: IpAddr = w["peer"].as_str().unwrap_or("").parse().unwrap_or_else(|_| vpc::machinery_failure("replay: bad peer"));
+    let local = local_addr(w["local_v6"].as_bool().unwrap_or(false));
+    println!("replay of {} (class {})\ncase     = {}", file.display(), r["class"], w["case"]);
+    let (label, exp, problems) = judge(&datagram, &peer, local);
+    println!("datagram = {} bytes, peer {peer}\nreference= {exp:?} (refwire parse: {:?})\nreal     = {label}\nproblems = {problems:?}", datagram.len(), RHeader::parse(&datagram).map(|(h, hl)| (h.src_tl, vpc::hex(&h.src_host), h.path_type, hl)));
+    std::process::exit(if problems.is_empty() { 0 } else { 1 });
+}
+
 pub fn run(args: &vpc::Args) -> ! {
-    vpc::machinery_failure(&format!("property {} not implemented yet", args.prop))
+    vpc::quiet_panics();
+    if let Some(f) = &args.replay {
+        replay(f);
+    }
+    let run = vpc::Run::new(args);
+    let quick = run.tier == vpc::Tier::Quick;
+    let peers = peers();
+    let paths = path_variants();
+    let payloads = payload_variants(quick);
+    let dst_nibbles: Vec<u8> = if quick { vec![0b0000, 0b0011, 0b0100, 0b1001] } else { (0..16).collect() };
+    let evaluations = AtomicU64::new(0);
+    let distinct = vpc::Distinct::default();
+
+    // work items: (src nibble, dst nibble, path variant, peer)
+    let mut items = vec![];
+    for src_tl in 0..16u8 {
+        for &dst_tl in &dst_nibbles {
+            for pi in 0..paths.len() {
+                for qi in 0..peers.len() {
+                    items.push((src_tl, dst_tl, pi, qi));
+                }
+            }
+        }
+    }
+    items.par_iter().for_each(|&(src_tl, dst_tl, pi, qi)| {
+        let (peer_name, peer) = &peers[qi];
+        let path = &paths[pi];
+        let local_v6 = (pi + qi) % 2 == 0;
+        let local = local_addr(local_v6);
+        let pats = src_patterns(peer, refwire::host_len(src_tl));
+        let mut buf: Vec<u8> = Vec::with_capacity(JUMBO + 64);
+        let mut outcomes: BTreeMap<String, u64> = BTreeMap::new();
+        let mut sigs: BTreeSet<u64> = BTreeSet::new();
+        let mut n = 0u64;
+        for (pat_name, src_host) in &pats {
+            for mode in HDR_MODES {
+                for payload in &payloads {
+                    let shape = Shape { dst_tl, src_tl, path, src_host, mode, payload };
+                    let boundaries = build(&shape, &mut buf);
+                    for cut in truncations(&boundaries, buf.len(), quick) {
+                        let datagram = &buf[..cut];
+                        let (label, exp, problems) = judge(datagram, peer, local);
+                        n += 1;
+                        let o = format!("reference={} real={label}", match &exp {
+                            Expect::Dispatch => "dispatch".to_string(),
+                            Expect::Reject(w) => format!("reject({w})"),
+                        });
+                        // decision signature: everything the verdict may depend on, without the bulk bytes
+                        if cut >= 12 {
+                            sigs.insert(vpc::fnv64(format!("{o}|{src_tl}|{dst_tl}|{}|{qi}|{pat_name}|{mode:?}", path.0).as_bytes()));
+                        }
+                        *outcomes.entry(o).or_default() += 1;
+                        let case = || {
+                            json!({
+                                "src_type_len_nibble": format!("{src_tl:04b}"), "dst_type_len_nibble": format!("{dst_tl:04b}"),
+                                "path_variant": path.0, "path_type": path.1, "peer_name": peer_name,
+                                "src_host_pattern": pat_name, "src_host": vpc::hex(src_host),
+                                "header_mode": format!("{mode:?}"), "payload_variant": payload.0, "cut_at": cut, "untruncated_len": buf.len(),
+                            })
+                        };
+                        if !problems.is_empty() {
+                            let w: Value = json!({"case": case(), "peer": peer.to_string(), "local_v6": local_v6, "datagram_hex": vpc::hex(datagram)});
+                            for (class, what) in &problems {
+                                run.violation(class, what, w.clone());
+                            }
+                        } else if n % 4099 == 1 {
+                            run.sample(6, || json!({"case": case(), "peer": peer.to_string(), "reference": format!("{exp:?}"), "real": label, "datagram_hex_first_64": vpc::hex(&datagram[..datagram.len().min(64)])}));
+                        }
+                    }
+                }
+            }
+        }
+        evaluations.fetch_add(n, Ordering::Relaxed);
+        for (k, v) in outcomes {
+            run.outcome_n(&k, v);
+        }
+        distinct.extend(sigs);
+    });
+
+    let evaluations = evaluations.into_inner();
+    let bound = format!(
+        "complete product: 16 source type/length nibbles x {} destination nibbles x {} path variants (types 0,1,2,3,4,5,255; right and wrong sizes) x {} peers x all source-host patterns of the nibble's length (equal, one-byte differences at every position, mapped/compatible/NAT64/padded/truncated forms, zeros, ones) x 6 header modes (truthful, HdrLen -1/+1/0/255, version 1) x {} payload variants (up to the 9216-byte jumbo buffer) x {}",
+        dst_nibbles.len(),
+        paths.len(),
+        peers.len(),
+        payloads.len(),
+        if quick { "truncation at every structural boundary (+-1 around the end of the header), empty datagram, full length" } else { "truncation at every structural boundary and +-1, empty datagram, full length" }
+    );
+    let cov = json!({
+        "evaluations": evaluations,
+        "distinct_nontrivial": distinct.len(),
+        "rule": "distinct decision signatures (reference verdict+reason, real verdict, source nibble, destination nibble, path variant, peer, source-host pattern, header mode) among datagrams of at least 12 bytes; payload size and cut position are not part of the signature",
+        "exhaustive": true,
+        "bound": bound,
+    });
+    run.finish(
+        "exploration",
+        cov,
+        &[
+            "trusted glue not executed: the match in TunnelGateway::start_server mapping Ok to Dispatcher::try_dispatch and Err to create_scmp_error (inside the async UDP loop); the hook forwards to the same two functions",
+            "'parses as a SCION packet' = the common, address and path headers parse by the format rules (refwire) and version = 0; a PayloadLen field that disagrees with the bytes present is not a header parse error (both sides agree; counted in the payload variants)",
+            "SCMP checksum of the reply is NOT checked here (properties C03/C14)",
+            "standard paths are generated with valid segment-length fields only; path content rules belong to C02/C03/C11",
+        ],
+    );
 }
